@@ -382,8 +382,14 @@ LedgerEquality(e, s2) ==
   LET w == e.w  a == s2.w[w].active
       T == {t \in DOMAIN s2.w[w].txs : s2.w[w].txs[t].acct = a /\ s2.w[w].txs[t].conf}
       cr == SumF([t \in T |-> s2.w[w].txs[t].cr], T)
-      db == SumF([t \in T |-> s2.w[w].txs[t].db], T) IN
-  Check(cr - db = e.info.total + e.info.locked, "C04", "LedgerEquality", e, "")
+      db == SumF([t \in T |-> s2.w[w].txs[t].db], T)
+      \* "their summed value": the outputs recorded as unspent or reserved (what the figures total + locked add up to
+      \* under any setting that counts confirmed outputs only; with minimum_confirmations = 0 the reported total also
+      \* counts unconfirmed change, which no confirmed log entry credits yet - the equality is about the records)
+      mine == {k \in OutsOfAcct(s2, w, a) : s2.w[w].outs[k].st \in {"Unspent", "Locked"}}
+      bal == SumF([k \in mine |-> s2.w[w].outs[k].v], mine) IN
+  /\ Check(cr - db = bal, "C04", "LedgerEquality", e, "")
+  /\ (e.minconf >= 1) => Check(bal = e.info.total + e.info.locked, "C04", "LedgerEquality", e, "figures")
 TRefresh ==
   /\ IsEv("refresh")
   /\ LET e == E  w == e.w
